@@ -1715,6 +1715,28 @@ fn flow_rules_family(out: &mut Out) {
         let text = run_flow_pipeline(args, None).map_err(|e| e.to_string())?;
         Zerv::from_str(&text).map_err(|e| format!("output is not a Zerv object: {e}"))
     };
+    // argument validation of flow: documented ranges and conflicts are refused, and --post replaces the tag's post before the bump
+    for (extra, must_fail) in [(vec!["--hash-branch-len", "0"], true), (vec!["--hash-branch-len", "11"], true), (vec!["--hash-branch-len", "10"], false),
+                               (vec!["--clean", "--distance", "2"], true), (vec!["--clean", "--dirty"], true), (vec!["--post-mode", "sometimes"], true),
+                               (vec!["--pre-release-label", "gamma"], true), (vec!["--schema", "calver"], true), (vec!["--schema", "standard-base-prerelease-post"], false)] {
+        out.cases += 1;
+        let mut argv: Vec<String> = vec!["flow".into(), "--source".into(), "none".into(), "--tag-version".into(), "v1.2.3".into(), "--bumped-branch".into(), "main".into(), "--output-format".into(), "zerv".into()];
+        if !extra.contains(&"--distance") && !extra.contains(&"--clean") { argv.push("--distance".into()); argv.push("2".into()); }
+        argv.extend(extra.iter().map(|s| s.to_string()));
+        let r = run(&argv);
+        if r.is_ok() == must_fail {
+            out.cex(fam, format!("flow {:?}: {}", extra, if must_fail { "accepted although the documented range / conflict rules refuse it".to_string() } else { format!("refused: {}", r.err().unwrap_or_default()) }));
+        }
+    }
+    for (post_flag, mode, distance, want) in [(7u64, "commit", 3u64, 10u64), (7, "tag", 3, 8), (0, "commit", 2, 2)] {
+        out.cases += 1;
+        let argv: Vec<String> = ["flow", "--source", "none", "--tag-version", "v2.0.9-rc.1.post.5", "--bumped-branch", "main", "--output-format", "zerv", "--no-dirty",
+            "--distance", &distance.to_string(), "--post-mode", mode, "--post", &post_flag.to_string()].iter().map(|s| s.to_string()).collect();
+        match run(&argv) {
+            Ok(z) => if z.vars.post != Some(want) { out.cex(fam, format!("--post {post_flag} with distance {distance} in {mode} mode gives post {:?}; the statement gives {want}", z.vars.post)); },
+            Err(e) => out.cex(fam, format!("--post {post_flag} with distance {distance} in {mode} mode fails: {e}")),
+        }
+    }
     for (tag, maj, min, pat, tag_pre, tag_post) in tags {
         for branch in branches {
             for distance in [0u64, 3] {
